@@ -16,6 +16,7 @@ import (
 	"github.com/bluenviron/gohlslib/v2"
 	"github.com/bluenviron/gohlslib/v2/pkg/codecs"
 	"github.com/bluenviron/mediacommon/v2/pkg/formats/fmp4"
+	"github.com/bluenviron/mediacommon/v2/pkg/formats/mpegts"
 )
 
 // e2e slice (property C09): a REAL gohlslib.Client reads a REAL gohlslib.Muxer, in-process.
@@ -82,6 +83,76 @@ type c9Served struct {
 	path   string
 	status int
 	empty  bool // fMP4 part/segment without a single sample; MPEG-TS segment in which a track of the PMT has no PES
+	stream string // stream id of a media response ("" otherwise)
+	pays   []int  // payload ids of the access units inside a media response (decoded by the harness with mediacommon)
+	media  bool
+}
+
+// c9DecodeMedia lists the payload ids carried by a served segment / part.
+func (r *c9Runner) c9DecodeMedia(path string, body []byte) (stream string, pays []int, ok bool) {
+	base := path
+	if i := strings.LastIndexByte(base, '/'); i >= 0 {
+		base = base[i+1:]
+	}
+	m := mxURIRe.FindStringSubmatch(base)
+	if m == nil || m[3] == "init" {
+		return "", nil, false
+	}
+	stream = m[2]
+	if m[5] == "ts" {
+		rd := &mpegts.Reader{R: bytes.NewReader(body)}
+		if err := rd.Initialize(); err != nil {
+			return stream, nil, false
+		}
+		rd.OnDecodeError(func(error) {})
+		for _, t := range rd.Tracks() {
+			switch t.Codec.(type) {
+			case *mpegts.CodecH264:
+				rd.OnDataH264(t, func(_, _ int64, au [][]byte) error { pays = append(pays, c9IDsOf("h264", au)...); return nil })
+			case *mpegts.CodecMPEG4Audio:
+				rd.OnDataMPEG4Audio(t, func(_ int64, aus [][]byte) error { pays = append(pays, c9IDsOf("aac", aus)...); return nil })
+			}
+		}
+		for {
+			if err := rd.Read(); err != nil {
+				break
+			}
+		}
+		return stream, pays, true
+	}
+	var ps fmp4.Parts
+	if err := ps.Unmarshal(body); err != nil {
+		return stream, nil, false
+	}
+	codec := ""
+	for i, t := range r.tracks {
+		if r.streamIDOf(i) == stream {
+			codec = t.codec
+		}
+	}
+	for _, p := range ps {
+		for _, pt := range p.Tracks {
+			for _, smp := range pt.Samples {
+				var au [][]byte
+				var err error
+				switch codec {
+				case "h264":
+					au, err = smp.GetH264()
+				case "h265":
+					au, err = smp.GetH265()
+				case "av1":
+					au, err = smp.GetAV1()
+				default:
+					au = [][]byte{smp.Payload}
+				}
+				if err != nil {
+					return stream, nil, false
+				}
+				pays = append(pays, c9IDsOf(codec, au)...)
+			}
+		}
+	}
+	return stream, pays, true
 }
 
 // c9TSLacksTrack: does an MPEG-TS segment lack data of one of the muxer's n tracks? (mediacommon's writer uses
@@ -148,6 +219,8 @@ type c9Runner struct {
 	lastWrite time.Time
 	fails     []string
 	evaluated bool
+	idle      bool // the clients were closed after their delivery logs had stopped growing (not at the deadline)
+	maxSeg    *big.Rat // longest segment of the paced part of the case, seconds (oracle)
 	stats     []string
 }
 
@@ -403,6 +476,9 @@ func (t *c9Transport) RoundTrip(req *http.Request) (*http.Response, error) {
 	if res.StatusCode == 200 && strings.HasSuffix(req.URL.Path, ".ts") {
 		sv.empty = c9TSLacksTrack(body, len(t.r.tracks))
 	}
+	if res.StatusCode == 200 {
+		sv.stream, sv.pays, sv.media = t.r.c9DecodeMedia(req.URL.Path, body)
+	}
 	t.run.mu.Lock()
 	if strings.HasSuffix(req.URL.Path, "/index.m3u8") && res.StatusCode == 200 {
 		t.run.mvText = string(body)
@@ -436,6 +512,8 @@ func c9ErrClass(err error) string {
 		return "gone" // the segment left the window before the (slow) client fetched it
 	case strings.Contains(s, "terminated"), strings.Contains(s, "context canceled"):
 		return "closed"
+	case strings.Contains(s, "TARGETDURATION not set"):
+		return "err:targetduration0"
 	case strings.Contains(s, "no variants with supported codecs"):
 		return "err:no-supported-variant"
 	case strings.Contains(s, "could not find data of leading track"):
@@ -630,6 +708,7 @@ func (r *c9Runner) finish() {
 			c.mu.Unlock()
 		}
 		if all || time.Since(latest) > quiet {
+			r.idle = true
 			break
 		}
 		time.Sleep(4 * time.Millisecond)
